@@ -91,6 +91,68 @@ pub fn scripts(n: usize, m: usize) -> Vec<Vec<(char, usize)>> {
 /// arbitrary valid scripts pushed through Compact<Replace> (sub-check "C09b").
 pub struct C10(pub bool);
 
+/// Valid scripts for a long structured input, computed from its (concrete) item pattern.
+fn long_scripts(po: &[u32], pn: &[u32]) -> Vec<Vec<(char, usize)>> {
+    let (n, m) = (po.len(), pn.len());
+    let p = po.iter().zip(pn.iter()).take_while(|(a, b)| a == b).count();
+    let q = po[p..].iter().rev().zip(pn[p..].iter().rev()).take_while(|(a, b)| a == b).count();
+    let qfull = po.iter().rev().zip(pn.iter().rev()).take_while(|(a, b)| a == b).count();
+    let clean = |v: Vec<(char, usize)>| -> Vec<(char, usize)> { v.into_iter().filter(|x| x.1 > 0).collect() };
+    let chunk = |v: &Vec<(char, usize)>, ce: usize, cd: usize| -> Vec<(char, usize)> {
+        let mut out = vec![];
+        for &(k, mut len) in v {
+            let c = if k == 'E' { ce } else { cd };
+            while len > c {
+                out.push((k, c));
+                len -= c;
+            }
+            out.push((k, len));
+        }
+        out
+    };
+    let mut out = vec![];
+    let s1 = clean(vec![('E', p), ('D', n - p - q), ('I', m - p - q), ('E', q)]);
+    out.push(s1.clone());
+    out.push(clean(vec![('E', p), ('I', m - p - q), ('D', n - p - q), ('E', q)]));
+    out.push(chunk(&s1, 7, 5));
+    out.push(clean(vec![('E', p), ('D', n - p), ('I', m - p)]));
+    out.push(clean(vec![('D', n - qfull), ('I', m - qfull), ('E', qfull)]));
+    // a longest-common-subsequence alignment, as runs and in unit steps
+    let mut t = vec![vec![0u32; m + 1]; n + 1];
+    for i in (0..n).rev() {
+        for j in (0..m).rev() {
+            t[i][j] = if po[i] == pn[j] { t[i + 1][j + 1] + 1 } else { t[i + 1][j].max(t[i][j + 1]) };
+        }
+    }
+    let (mut i, mut j) = (0, 0);
+    let mut steps: Vec<char> = vec![];
+    while i < n || j < m {
+        if i < n && j < m && po[i] == pn[j] && t[i][j] == t[i + 1][j + 1] + 1 {
+            steps.push('E');
+            i += 1;
+            j += 1;
+        } else if j < m && (i == n || t[i][j + 1] >= t[i + 1][j]) {
+            steps.push('I');
+            j += 1;
+        } else {
+            steps.push('D');
+            i += 1;
+        }
+    }
+    let mut runs: Vec<(char, usize)> = vec![];
+    for c in &steps {
+        match runs.last_mut() {
+            Some(r) if r.0 == *c => r.1 += 1,
+            _ => runs.push((*c, 1)),
+        }
+    }
+    out.push(runs.clone());
+    out.push(chunk(&runs, 1, 1));
+    out.sort();
+    out.dedup();
+    out
+}
+
 fn feed<D: DiffHook>(ops: &[DiffOp], d: &mut D) -> Result<(), D::Error> {
     for op in ops {
         op.apply_to_hook(d)?;
@@ -126,6 +188,18 @@ impl Prop for C10 {
                     if n + m <= 5 {
                         v.push(Shape { n, m, script: script.clone(), pipe: Pipe::CompactReplace, layout: Layout::Offset { off_o: 2, off_n: 1 } });
                         v.push(Shape { n, m, script: script.clone(), pipe: Pipe::Compact, layout: Layout::Slice { pre_o: 1, post_o: 1, pre_n: 0, post_n: 1 } });
+                    }
+                }
+            }
+        }
+        // long structured inputs with several valid scripts each
+        for layout in long_layouts(tier == Tier::Thorough) {
+            if let Layout::Long { fam, k, var, .. } = layout {
+                let (po, pn, _) = long_pattern(fam, k as usize, var);
+                for script in long_scripts(&po, &pn) {
+                    let pipes: &[Pipe] = if self.0 { &[Pipe::CompactReplace] } else { &[Pipe::Compact, Pipe::Replace, Pipe::CompactReplace] };
+                    for &pipe in pipes {
+                        v.push(Shape { n: po.len(), m: pn.len(), script: script.clone(), pipe, layout });
                     }
                 }
             }
@@ -211,6 +285,9 @@ impl Prop for C10 {
         if s.script.windows(2).any(|w| w[0].0 == 'I' && w[1].0 == 'D') {
             engine::witness("scripts_with_insert_before_delete");
         }
+        if matches!(s.layout, Layout::Long { .. }) {
+            engine::witness("long_structured_paths");
+        }
         if s.script.windows(2).any(|w| w[0].0 == 'E' && w[1].0 == 'E') {
             engine::witness("scripts_with_split_equal_runs");
         }
@@ -253,10 +330,10 @@ impl Prop for C10 {
                 "similar::DiffOp::{apply_to_hook, grow_left/right, shrink_left/right, shift_left/right, is_empty}",
                 "similar::algorithms::utils::{common_prefix_len, common_suffix_len}",
             ],
-            bounds: format!("all valid scripts over sequences of lengths n,m in 0..={}: every lattice path (0,0)->(n,m) in unit steps equal/delete/insert, cut into runs in every way (split Equal runs, insert-before-delete, alternating runs), with exact carried indices; items symbolic, only the equalities stated by the script's Equal runs are assumed; pipelines Compact, Replace, Compact<Replace>; plus offset-lookup / padded layouts for n+m<=5", match tier { Tier::Quick => 5, Tier::Thorough => 6 }),
+            bounds: format!("all valid scripts over sequences of lengths n,m in 0..={}: every lattice path (0,0)->(n,m) in unit steps equal/delete/insert, cut into runs in every way (split Equal runs, insert-before-delete, alternating runs), with exact carried indices; items symbolic, only the equalities stated by the script's Equal runs are assumed; pipelines Compact, Replace, Compact<Replace>; plus offset-lookup / padded layouts for n+m<=5; plus, for each long structured input of common.rs::long_layouts (about 30 (thorough 53) inputs of 40..600 items a side, some as sub-ranges at unequal offsets), up to seven valid scripts (common prefix / suffix as Equal runs around one Delete+Insert in both orders, the same cut into chunks of 7 / 5, prefix only, suffix only, a longest-common-subsequence alignment as runs and in unit steps)", match tier { Tier::Quick => 5, Tier::Thorough => 6 }),
             outside: "longer sequences; scripts whose carried indices are not exact (the adapters' input contract)".into(),
             assumptions: vec!["the input script is valid: positive lengths, exact positions, Equal runs pair equal items (assumed into the path condition before the run)".into()],
-            required_witnesses: if self.0 { vec!["paths_that_took_a_compaction_swap", "scripts_with_split_equal_runs"] } else { vec!["paths_that_took_a_compaction_swap", "scripts_with_insert_before_delete", "scripts_with_split_equal_runs", "paths_with_replace_call"] },
+            required_witnesses: if self.0 { vec!["paths_that_took_a_compaction_swap", "scripts_with_split_equal_runs", "long_structured_paths"] } else { vec!["paths_that_took_a_compaction_swap", "scripts_with_insert_before_delete", "scripts_with_split_equal_runs", "paths_with_replace_call", "long_structured_paths"] },
             rule: "one state = one explored path = one script skeleton x one equality pattern of the items consistent with it".into(),
         }
     }
